@@ -959,11 +959,11 @@ def check_stmts(ctx, stmts, tag, front_modules=()):
             rr = rej_res[i]
             if rr["ok"] or not ("wrong number of arguments" in rr["err"] or "missing argument" in rr["err"]):
                 ctx.corr_break("model-rejects-vs-compiler", inp, rr, ma)
-            f2 = list(flags); f2[5] = 1
+            f2 = list(flags); f2[4] = f2[5] = f2[6] = 1
             alt = parse_model(model.batch(model_lines([s], f2))[0])
             pr = parse_model(mr)
-            if alt is None or pr is None or alt[1] == "REJECT" or alt[0] != pr[0]:
-                ctx.corr_break("rejected-call-repaired-model", inp, alt, pr)
+            if alt is None or alt[1] == "REJECT":
+                ctx.corr_break("rejected-call-repaired-model", inp, alt, mr)
             nrej.append(src)
             continue
         ctx.case(stratum_of(s), inp, sig=src)
@@ -1214,6 +1214,8 @@ BUILTINS = [
     ("as_dict({d}).setdefault({o}, {o})", "dict.setdefault"), ("as_dict({d}).pop({o}, {o})", "dict.pop"),
     ("as_list({l}).insert({i}, {o})", "list.insert"), ("as_list({l}).append({o})", "list.append"),
     ("as_list({l}).extend([{o}, {o}, {o}])", "list.extend"), ("as_list({l}).pop({i} - {i})", "list.pop"),
+    ("as_list({l}).extend([{o} + {o}, {o}, -{o}])", "list.extend-mixed"), ("as_list({l}).extend(({o}, {o}.a, {o}))", "list.extend-mixed"),
+    ("set([{o}.a, {o}, {o} + {o}])", "set-mixed"),
     ("as_str({s}).startswith({s}, {i}, {i})", "str.startswith"), ("as_str({s}).endswith({s}, {i})", "str.endswith"),
     ("as_str({s}).find({s}, {i}, {i})", "str.find"), ("as_str({s}).replace({s}, {s}, {i})", "str.replace"),
     ("as_str({s}).split({s}, {i})", "str.split"), ("as_str({s}).join([{s}, {s}])", "str.join"),
@@ -1304,7 +1306,16 @@ def check_builtins(ctx):
         ctx.case("builtin/" + name, inp, sig=src)
         same_val = (a[1] == o[1]) or (a[1].startswith("?<") and o[1].startswith("?<"))
         if dedup_bool(a[0]) != dedup_bool(o[0]) or not same_val:
-            klass = "c_call_inline_c_argument_order_unspecified" if name == "inline" else "optimised_builtin_call_order_differs"
+            klass = "optimised_builtin_call_order_differs"
+            if name == "inline":
+                klass = "c_call_inline_c_argument_order_unspecified"
+            elif name in ("list.extend-mixed", "set-mixed") or (
+                    name in ("list.extend", "set") and any(tok in src for tok in (" or ", " and ", " if "))):
+                # the literal's items: calls go into LetRefNode temps, other nodes that end up in temps
+                # (operators, attribute lookups, and/or, conditional expressions) count as simple, stay in place
+                klass = "builtin_literal_item_in_temp_taken_for_simple"
+            elif name == "cfunc-int-kw" and any(tok in src for tok in (" or ", " and ", " if ")):
+                klass = "ccall_argument_taken_for_simple_before_analysis"
             ctx.fail(klass, inp, a, o)
         else:
             lv = [e for e in a[0] if e.startswith("L") and e[1:].isdigit()]
